@@ -1,7 +1,8 @@
 import MsiProofs.Lemmas.Created
+import MsiProofs.Lemmas.DropTableMain
 /-
 The life of a package made with the library: `create`, then any sequence of statements on user
-tables, `create_table` calls and saves; every invariant holds throughout, and after a save the
+tables, `create_table` and `drop_table` calls and saves; every invariant holds throughout, and after a save the
 package reopens as it was.
 -/
 namespace MsiProofs.Lifecycle
@@ -13,20 +14,40 @@ open MsiProofs.SaveOpen MsiProofs.CreateTable MsiProofs.FullHistory MsiProofs.Cr
 inductive Step
   | dml (op : MsiProofs.GlobalInvUpd.Op)
   | create (name : List Char) (cols : List Column)
+  | drop (name : List Char)
   | save
 
 /-- the state after the call (whatever it returned) -/
 def Step.run (s : Pkg) : Step → Pkg
   | .dml op => op.run { s with finisher := true }
   | .create n c => (createTable s n c).1
+  | .drop n => (dropTable s n).1
   | .save => (flush s).1
 
+/-- `drop_table` refuses the call before doing anything -/
+def dropRefused (s : Pkg) (n : List Char) : Prop :=
+  Catalog.isReserved n = true ∨ Table.isValidName n = false ∨ s.findTable n = none
+
+theorem dropRefused_noop (s : Pkg) (n : List Char) (h : dropRefused s n) : (dropTable s n).1 = s := by
+  unfold dropTable
+  by_cases h1 : Catalog.isReserved n = true
+  · rw [if_pos h1]
+  rw [if_neg h1]
+  by_cases h2 : (!Table.isValidName n) = true
+  · rw [if_pos h2]
+  rw [if_neg h2]
+  rcases h with h | h | h
+  · exact absurd h h1
+  · rw [h] at h2; exact absurd rfl h2
+  · rw [h]
+
 /-- the calls the theorem covers: statements on user tables (accepted or refused); `create_table`
-calls that are refused by the up-front checks or succeed; saves that succeed, of states that
+and `drop_table` calls that are refused by the up-front checks or succeed; saves that succeed, of states that
 can be written (`Savable`: text the code page can encode, a well-formed summary) -/
 def Step.Admissible (s : Pkg) : Step → Prop
   | .dml op => MsiProofs.EndToEnd.UserOp op
   | .create n c => createError s n c ≠ none ∨ (createTable s n c).2 = .ok ()
+  | .drop n => dropRefused s n ∨ (dropTable s n).2 = .ok ()
   | .save => (flush s).2 = .ok () ∧ ∃ E, Savable s E
 
 def Admissible : Pkg → List Step → Prop
@@ -71,6 +92,12 @@ theorem step_full (slack : Nat → Nat) (s : Pkg) (tabs : List Table) (hF : Full
             exact absurd hnm (findTable_none_ne s n hf.fresh t ht)
         have hrun : createTable s n c = ((createTable s n c).1, .ok ()) := by rw [← ha]
         exact ⟨_, createTable_full slack s tabs hF n c _ hrun hfresh, hN'⟩
+  | drop n =>
+    show ∃ tabs', Full slack (dropTable s n).1 tabs' ∧ NoOrphans (dropTable s n).1
+    rcases ha with ha | ha
+    · rw [dropRefused_noop s n ha]; exact ⟨tabs, hF, hN⟩
+    · have hrun : dropTable s n = ((dropTable s n).1, .ok ()) := by rw [← ha]
+      exact ⟨_, MsiProofs.DropTable.dropTable_full slack s tabs hF hN n _ hrun⟩
   | save =>
     obtain ⟨hok, E, hsav⟩ := ha
     show ∃ tabs', Full slack (flush s).1 tabs' ∧ NoOrphans (flush s).1
@@ -212,6 +239,31 @@ theorem create_reopens (prof : Profile) (ptype : Nat) (s : Pkg) (hc : create pro
     rw [← hs]
   exact created_reopens ptype summary s0 hct (Step.save :: steps) hadm E (hrun ▸ hsav) s1 (hrun ▸ hf)
 
+
+/-- **in every state reachable from `create`, every invariant holds with slack 0** -/
+theorem created_history_full (ptype : Nat) (summary : PropSet) (s0 : Pkg)
+    (hc : createTable (base ptype summary) Gen.nameValidation.toList Catalog.validationColumns = (s0, .ok ()))
+    (steps : List Step) (ha : Admissible s0 steps) :
+    ∃ tabs, Full (fun _ => 0) (runAll s0 steps) tabs ∧ NoOrphans (runAll s0 steps) := by
+  obtain ⟨hF0, hN0⟩ := created_full ptype summary s0 hc
+  exact history_full _ steps s0 _ hF0 hN0 ha
+
+/-- **exact string accounting in every reachable state**: the reference count of every pool entry
+equals the number of cells, over all tables, that refer to it -/
+theorem created_history_exact (ptype : Nat) (summary : PropSet) (s0 : Pkg)
+    (hc : createTable (base ptype summary) Gen.nameValidation.toList Catalog.validationColumns = (s0, .ok ()))
+    (steps : List Step) (ha : Admissible s0 steps) (r : Nat) (hr : 0 < r) :
+    (cellsOfTables (runAll s0 steps) (runAll s0 steps).tables).count (.str r) = (runAll s0 steps).pool.refcount r := by
+  obtain ⟨tabs, hF, -⟩ := created_history_full ptype summary s0 hc steps ha
+  have := hF.core.inv.counts r hr
+  omega
+
+/-- **ascending, hence unique, keys in every reachable state**, for every table -/
+theorem created_history_sorted (ptype : Nat) (summary : PropSet) (s0 : Pkg)
+    (hc : createTable (base ptype summary) Gen.nameValidation.toList Catalog.validationColumns = (s0, .ok ()))
+    (steps : List Step) (ha : Admissible s0 steps) : SortedAll (runAll s0 steps) := by
+  obtain ⟨tabs, hF, -⟩ := created_history_full ptype summary s0 hc steps ha
+  exact hF.core.sorted
 
 /-- with no orphaned table stream, the stream of a table `create_table` accepts does not exist yet -/
 theorem fresh_of_noOrphans (s : Pkg) (hN : NoOrphans s) (n : List Char) (c : List Column)
